@@ -11,6 +11,7 @@ BASELINE = ("cd /repo && /venv/bin/python -m pytest -ra -q -p no:cacheprovider -
 # id -> (engine, technique, level text, level note, design ref)
 CHECKS = {
     'C01': ('H', 'explicit-state exploration of provider transaction histories on the real provider+consumer stack (loop-back transport), canonical snapshot equality after every prefix',
+            'Extensions: context states removed through the entity interface in a descriptor transaction (first / first two / all but last / all), pre-state with three patient states. '
             'Every sequence of 2 events over a 48-event alphabet (all transaction kinds through both interfaces, contexts, location, '
             'descriptor create/update/delete/re-create, parent+child in one transaction) plus every event from 4 non-initial '
             'pre-states (thorough: depth 3 over an 18-event core alphabet and depth 2 from the pre-states) is executed on a real '
@@ -32,6 +33,7 @@ CHECKS = {
             'Provider side only; one MDIB file; depth/alphabet bounds as in the evidence. Version bookkeeping of the oracle is '
             'independent of handle_version_lookup.', '3/C02'),
     'C03': ('H+I', 'exhaustive crash-point enumeration over transaction bodies plus exhaustive enumeration (by reflection) of nested attribute paths of every handed-out object, against full canonical MDIB snapshots',
+            'Extensions: every keyword combination of mk_context_state / add_state (handle none/existing/new x adjust_state_version x set_associated) as all-or-nothing calls; with periodic reports on, writing to a transaction result must not change the states retained for the periodic report of that commit. '
             'For 13 transaction bodies covering every transaction kind through the classic and the entity interface, an exception is '
             'raised after every non-empty ordered selection of the body\'s API calls and in the pre-commit hook; 29 calls the API must '
             'reject and 3 commit paths the API can make fail are issued alone and after a valid modification; every nested attribute '
@@ -43,6 +45,7 @@ CHECKS = {
             '(e.g. a table operation raising spontaneously) are not injected; tr.actual_descriptor() is a documented read accessor to '
             'the live object and is not treated as a copy.', '3/C03'),
     'C04': ('H+S', 'explicit-state exploration of transaction histories with a recording subscriber (wire messages re-parsed with lxml and validated by a harness-built XMLSchema); schedule exploration of concurrent writers for ordering',
+            'Extensions: every Crt/Upt part of a DescriptionModificationReport carries exactly the committed states of its descriptor (all context states); slow subscriber on the async managers: the k-th delivery takes 4-61 virtual seconds on a virtual asyncio loop, reports must still arrive in MdibVersion order and none may be lost. '
             'Every event of the 50-event alphabet, all pairs over the 18-event core alphabet, pairs over two-MDS events on a two-MDS MDIB, '
             'the async subscription manager and the periodic-report store are executed with a recording subscriber. Every message on '
             'the wire is validated with an XMLSchema the harness builds from src/sdc11073/xsd (independent of the library validate '
@@ -94,6 +97,7 @@ CHECKS = {
             'are not explored; sync subscription manager without subscriber; one schedule is replayed twice per run as determinism '
             'self-check.', '3/C07'),
     'C08': ('H', 'explicit-state breadth-first search with canonical-state dedup over eventing histories on the four real subscription managers inside the real provider dispatch chain, against a reference model of subscription liveness on the same virtual clock',
+            'Extensions: mid-delivery events: while a report is handed to the first subscriber the other one unsubscribes (second real thread) or all subscriptions expire - nothing may reach it afterwards; timeout faults also in the quick tier. '
             'BFS to depth 4 (thorough 6) over 34 events - Subscribe (expires omitted / 5 / 99 > maximum), Renew, GetStatus, Unsubscribe, '
             'the same three naming an unknown identifier, metric and alert reports, clock ticks of 2 s and 4 s across expiry, one pass of '
             'the real housekeeping loop body, delivery-fault mode per subscriber (ok, HTTP 500, refused; thorough also timeout, not '
@@ -107,6 +111,7 @@ CHECKS = {
             'One provider object is reused between histories (subscription table, client pool, wire log, clock, uuid counter are '
             'reset); expiry instants are never hit exactly; "sent" means handed to the subscriber-facing SOAP client.', '3/C08'),
     'C09': ('I+H', 'exhaustive enumeration of request sequences on the real provider stack (worker loop body driven explicitly) and of all orderings of response and reports on the real consumer OperationsManager; oracle = regular language of invocation-state words per transaction id',
+            'Extensions: bursts of 9-13 queued requests against the 10-entry operation queue (a Wait answer must be followed by Start and a final state); consumer handle completion judged by a reference rule (failing response completes at once, otherwise all parts up to the first final report); schedule part: 2-3 concurrent request threads, bound 2, transaction ids unique. '
             'Provider: every single request over 5 operation kinds (SetString, SetValue, Activate, SetContextState, SetAlertState) x '
             'direct/queued x handler {real, ok, ok-with-modification, returns Fail, raises}, the unknown operation, and pairs of requests '
             'from two consumers are sent through the real consumer service clients; the real SCO registry and worker loop body execute '
@@ -120,6 +125,7 @@ CHECKS = {
             'races that need a preemption inside generate_transaction_id are the subject of the schedule explorer (not part of this '
             'check yet).', '3/C09'),
     'C10': ('H', 'explicit-state exploration of histories of set_location, SetContextState invocations (real consumer client, provider SCO worker body, role provider) and context transactions; invariant on the context table and on every EpisodicContextReport',
+            'Extensions: schedule part: a SetContextState request thread racing with a provider-side context change of the same descriptor (3 writers x 2-4 proposals, preemption bound 1, thorough 2), invariants evaluated on the table recorded at every commit. '
             'All 2-event histories over 26 events and all 3-event histories over a 7-event core (thorough: larger core): SetContextState '
             'requests with one or two proposals (new / update of the first or second existing state / stale handle x NoAssociation, '
             'PreAssociation, Associated, Disassociated, including two associated proposals for one descriptor) sent by the real consumer '
